@@ -272,3 +272,11 @@ Theorem C02_source_impl_bounds :
   bounds_of "AsRef<[T;N]> for GenericArray<T,ConstArrayLength<N>>" = Some ["Const<N>:IntoArrayLength"; "const N"] /\
   bounds_of "AsMut<[T;N]> for GenericArray<T,ConstArrayLength<N>>" = Some ["Const<N>:IntoArrayLength"; "const N"].
 Proof. repeat split. Qed.
+
+(* the by-value conversion to the native array, an impl FOR [T; N] (regenerated): forwards to into_array under the
+   published bound *)
+Theorem C02_source_into_native :
+  thin_of "From<GenericArray<T,ConstArrayLength<N>>> for [T;N]" "from" = Some "value . into_array ()" /\
+  bounds_of "From<GenericArray<T,ConstArrayLength<N>>> for [T;N]" = Some ["Const<N>:IntoArrayLength"; "const N"] /\
+  methods_of "From<GenericArray<T,ConstArrayLength<N>>> for [T;N]" = Some ["from"].
+Proof. repeat split. Qed.
